@@ -17,6 +17,7 @@
 //@harness name=tier_independence_f64 kind=complete tier=quick timeout=900
 //@harness name=tier_independence_in_f64 kind=bounded bound="IN list of 1 literal (HashSet<i64> with the hasher stubbed to fixed keys)" tier=thorough timeout=1800 stubs=yes gate=yes
 //@harness name=string_condition_eq_neq kind=bounded bound="cell and literal of exactly 2 symbolic ASCII bytes" tier=quick timeout=900
+//@harness name=string_condition_on_bool_cell kind=complete tier=quick timeout=900
 //@harness name=logical_connectives kind=complete tier=quick timeout=900
 //@obligation C02.conditions.evaluate_scalar.is_comparison : for all lhs, literal and the six comparison operators the result is `lhs op literal` in Z
 //@obligation C02.conditions.evaluate_at.i64_cell : an i64 cell is selected iff `cell op literal` holds
@@ -26,6 +27,7 @@
 //@obligation C02.conditions.tier_independence.f64 : same for float values
 //@obligation C02.conditions.tier_independence.in_f64 : IN over a float value answers the same in memory and on disk [bounded, gate]
 //@obligation C02.conditions.string.eq_neq : `=` / `!=` on a string cell select exactly the rows whose cell equals / differs from the literal (on-disk evaluator; the in-memory string path did not finish in 600 s and is not decided) [bounded]
+//@obligation C02.conditions.string.bool_cell : a boolean literal arrives as the text `true` / `false`; on a typed boolean column `=` / `!=` select exactly the rows whose cell spells / does not spell the literal, and a null cell is never selected (guards /repo fix: bool equality returned nothing once flushed)
 //@obligation C02.conditions.logical.and_or_not : And / Or / Not over leaf conditions equal the boolean connectives of the leaves' answers
 
     use crate::engine::core::Event;
@@ -188,6 +190,31 @@
         fn get_u64_at(&self, _field: &str, _index: usize) -> Option<u64> { None }
         fn get_f64_at(&self, _field: &str, _index: usize) -> Option<f64> { None }
         fn event_count(&self) -> usize { 1 }
+    }
+
+    struct BoolCell(Option<bool>);
+    impl FieldAccessor for BoolCell {
+        fn get_str_at(&self, _field: &str, _index: usize) -> Option<&str> { None }   // a typed boolean column has no string view
+        fn get_i64_at(&self, _field: &str, _index: usize) -> Option<i64> { None }
+        fn get_u64_at(&self, _field: &str, _index: usize) -> Option<u64> { None }
+        fn get_f64_at(&self, _field: &str, _index: usize) -> Option<f64> { None }
+        fn get_bool_at(&self, _field: &str, _index: usize) -> Option<bool> { self.0 }
+        fn event_count(&self) -> usize { 1 }
+    }
+
+    #[kani::proof]
+    #[kani::unwind(8)]
+    fn string_condition_on_bool_cell() {
+        let cell: Option<bool> = kani::any();
+        let lit_true: bool = kani::any();
+        let neq: bool = kani::any();
+        let lit = String::from(if lit_true { "true" } else { "false" });
+        let cond = std::mem::ManuallyDrop::new(StringCondition::new(String::from("x"), if neq { CompareOp::Neq } else { CompareOp::Eq }, lit));
+        let disk = cond.evaluate_at(&BoolCell(cell), 0);
+        kani::cover!(cell == Some(true) && lit_true && !neq, "COVER:true_equals_true");
+        kani::cover!(cell.is_none(), "COVER:null_cell");
+        let expected = match cell { None => false, Some(b) => (b == lit_true) != neq };
+        assert!(disk == expected, "OBL:C02.conditions.string.bool_cell");
     }
 
     #[kani::proof]
